@@ -189,3 +189,23 @@ def run_single(module, func, params, prefix, expect=None):
   from . import world
   world.boot()
   return _get_fn(module, func)(params, prefix, expect)
+
+
+def _call_task(args):
+  module, func, a = args
+  return _get_fn(module, func)(*a)
+
+
+def pmap(module, func, arg_list, pool=None, seed=0):
+  """Run func(*args) for every args tuple in worker processes (world booted); unordered results."""
+  own = pool is None
+  if own:
+    pool = make_pool()
+  tasks = [(module, func, a) for a in arg_list]
+  random.Random(seed).shuffle(tasks)
+  try:
+    return list(pool.imap_unordered(_call_task, tasks, chunksize=1))
+  finally:
+    if own:
+      pool.close()
+      pool.join()
